@@ -120,7 +120,12 @@ def worker(payload):
     def bump(k):
         out["hist"][k] = out["hist"].get(k, 0) + 1
 
+    predicted = [True]
+
     def known(o, key, witness):
+        if not predicted[0]:
+            o["viol"].append({"law": f"fails inside class {key} but differently from the model", **witness})
+            return
         e = o["known"].setdefault(key, {"count": 0, "witness": witness})
         e["count"] += 1
 
@@ -139,9 +144,15 @@ def worker(payload):
             ma = {k: v for k, v in a.items() if k in ("o", "t", "nres")}
             if ma.get("o", [None])[0] == "ambiguous":
                 ma["o"] = ["ambiguous"]
+            stop_after = False
+            predicted[0] = True
             if ma != strip(b):
-                out["corr"].append({"layer": "F", "op_index": j, "op": op, "model": ma, "impl": strip(b), "scenario": desc})
-                break
+                predicted[0] = False
+                out["corr"].append({"layer": "F", "op_index": j, "op": op, "model": ma, "impl": strip(b), "msg": b.get("msg"), "scenario": desc})
+                # the oracles below look at the real code only: evaluate them on this operation too, then stop
+                stop_after = True
+                if op[0] != "call":
+                    break
             if op[0] != "call":
                 if seen_call:
                     change_after_call = True
@@ -211,7 +222,7 @@ def worker(payload):
                     if a["keylen"] == 0:
                         known(o2, "D9:zero-arguments-bypass-resolution", wit)
                     elif a.get("truncated"):
-                        known(o2, "D8:early-exit-drops-keywords", wit)
+                        known(o2, "D8b:keyword-given-positional-beyond-an-omitted-one", wit)
                     elif not a["cc"]:
                         known(o2, "D1:levels-of-unrelated-types", wit)
                     elif not a["tie"]:
@@ -240,7 +251,7 @@ def worker(payload):
                 got = {k: v for k, v in received.items() if v is not None}
                 if got != expected:
                     if a.get("truncated"):
-                        known(o3, "D8:early-exit-drops-keywords", wit)
+                        known(o3, "D8b:keyword-given-positional-beyond-an-omitted-one", wit)
                     else:
                         o3["viol"].append({"law": "selected method did not receive exactly the supplied arguments", "expected": expected, "received": received, **wit})
             elif ok[0] in ("bind", "nomethod") and regs:
@@ -251,8 +262,8 @@ def worker(payload):
                     o3["nontrivial"] += 1
                     if not op[1] and not op[2]:
                         known(o3, "D9:zero-arguments-bypass-resolution", wit)
-                    elif a.get("truncated") or (a.get("bind") is True and op[2]):
-                        known(o3, "D8:early-exit-drops-keywords", wit)
+                    elif a.get("truncated"):
+                        known(o3, "D8b:keyword-given-positional-beyond-an-omitted-one", wit)
                     else:
                         o3["viol"].append({"law": "a call shape accepted by an applicable method was rejected", "accepting": [x["id"] for x in acc], **wit})
             # ---------------- C07: chains
@@ -261,6 +272,8 @@ def worker(payload):
             if len(raw) > 1:
                 o7["n"] += 1
                 o7["nontrivial"] += 1
+            if stop_after:
+                break
         if len(out["samples"]) < 2 and im:
             j = len(im) - 1
             out["samples"].append({"op": sc["ops"][j], "impl": strip(im[j]), "model": {k: v for k, v in r["ops"][j].items() if k in ("o", "t", "nres")}})
